@@ -24,6 +24,26 @@ def register(m):
     WLK = "symplyphysics/laws/electricity/circuits/couplers/impedances_for_wilkinson_microstrip_divider.py"
     m("C03", "b3-solve-dict-values-unpacked", WLK, "    result_z1 = result[first_impedance]\n    result_z2 = result[second_impedance]\n    result_z3 = result[third_impedance]\n    result_z4 = result[fourth_impedance]\n",
       "    result_z1, result_z2, result_z3, result_z4 = result.values()\n", "I7")
+    m("C08", "b4-raw-scale-factors-regression", "symplyphysics/core/approx.py", "    lhs_value = convert_to_si(lhs)\n    rhs_value = convert_to_si(rhs)\n",
+      "    lhs_value = lhs.scale_factor\n    rhs_value = rhs.scale_factor\n", "A2", note="the genuine defect repaired in 98cffce: gram-based scale factors under an SI absolute tolerance")
+    m("C08", "b4-infinite-lhs-regression", "symplyphysics/core/approx.py", "    if abs(lhs) == inf or abs(rhs) == inf:\n        return bool(lhs == rhs)\n", "", "A4",
+      note="the genuine defect repaired in 457d450: an infinite lhs equals everything")
+    m("C08", "b4-infinite-guard-isinf-ok", "symplyphysics/core/approx.py", "    if abs(lhs) == inf or abs(rhs) == inf:\n        return bool(lhs == rhs)\n",
+      "    if lhs in (inf, -inf) or rhs in (inf, -inf):\n        return lhs == rhs\n", "SILENT")
+    CELS = "symplyphysics/core/symbols/celsius.py"
+    m("C07", "b4-from-kelvin-unchecked-regression", CELS,
+      "    assert_equivalent_dimension(value, \"value\", \"from_kelvin_quantity\", units.temperature)\n", "", "U5", note="the genuine defect repaired in 65139ff")
+    m("C07", "b4-from-kelvin-through-library-convert-ok", CELS,
+      "    assert_equivalent_dimension(value, \"value\", \"from_kelvin_quantity\", units.temperature)\n    kelvin_value = float(value.scale_factor / Quantity(units.kelvin).scale_factor)\n",
+      "    kelvin_value = float(convert_to(value, units.kelvin))\n", "SILENT",
+      extra=[(CELS, "from ..dimensions import assert_equivalent_dimension\n", "from ..dimensions import assert_equivalent_dimension\nfrom ..convert import convert_to\n", 1)])
+    m("C07", "b4-evaluate-expression-prefix-regression", "symplyphysics/core/convert.py",
+      "    for prefix in expr.atoms(Prefix):\n        expr = expr.subs(prefix, prefix.scale_factor)\n", "", "U6", note="the genuine defect repaired in d029f70")
+    m("C06", "b4-indexed-element-dimensionless-regression", "symplyphysics/core/dimensions/collect_expression.py",
+      "    if isinstance(expr, Indexed) and hasattr(expr.base, \"dimension\"):\n        return expr, getattr(expr.base, \"dimension\")\n", "", "S2",
+      note="the genuine defect repaired in 403b95c")
+    m("C14", "b4-dot-not-commutative-regression", "symplyphysics/core/experimental/vectors/__init__.py",
+      "    # dot product is a scalar, see `VectorNorm` and `VectorMixedProduct`\n    is_real = True\n    is_commutative = True\n", "", "R2", note="the genuine defect repaired in 5e2e85e")
     # C09 N1: factories hand out fresh systems
     m("C09", "b2-transform-returns-argument", CSYS,
       ") -> CoordinateSystem:\n    new_coord_system = from_system.coord_system.create_new(",
